@@ -247,6 +247,12 @@ class Interp:
                         return C(x > y)
                     if op == 'Ge':
                         return C(x >= y)
+                    if op in ('Add', 'Sub', 'Mul', 'AddWithOverflow', 'SubWithOverflow', 'MulWithOverflow') and isinstance(x, (int, bool)) and isinstance(y, (int, bool)):
+                        xi, yi = int(x), int(y)
+                        r = xi + yi if op.startswith('Add') else (xi - yi if op.startswith('Sub') else xi * yi)
+                        if op.endswith('WithOverflow'):
+                            return ('tuple', (C(r), C(not (-2 ** 63 <= r < 2 ** 64))))
+                        return C(r)
                     if op == 'BitAnd' and isinstance(x, bool):
                         return C(x and y)
                     if op == 'BitOr' and isinstance(x, bool):
